@@ -21,7 +21,7 @@ def run(tier, seed, replay=None):
         for cfg in ("MC_kruskal.cfg", "MC_prim.cfg", "MC_cert.cfg", "MC_kruskal4.cfg", "MC_prim4.cfg"):
             ck.mc(DIR, "MstAlgs", cfg)
         ck.mc(DIR, "MstAlgs", "NC_kruskal.cfg", expect_violation="KruskalFinal")
-        cases = [drv.gen(rng, nmax=4 if i % 4 == 0 else 9) for i in range(500 if tier == "quick" else 8000)]
+        cases = [drv.gen(rng, nmax=4 if i % 4 == 0 else (14 if i % 4 == 1 else 9)) for i in range(500 if tier == "quick" else 8000)]
     res = run_tasks("mst", "run_mst", cases, timeout=120)
     trs, ufs = [], []
     for r, c in zip(res, cases):
